@@ -320,8 +320,16 @@ int gx_compare(const gx_msg *t, htp_tx_t *tx, const hx_txrec *rec, hx_buf *err, 
 
 void gx_deflate(hx_buf *out, const uint8_t *data, size_t n, int mode) {
     z_stream z; memset(&z, 0, sizeof z);
-    int wb = mode == 0 ? 15 + 16 : mode == 1 ? 15 : -15;
+    /* mode 0 gzip, 1 zlib, 2 raw; 3..6 gzip with header fields: 3 FNAME, 4 FEXTRA, 5 FCOMMENT + FHCRC, 6 all of them */
+    int wb = (mode == 0 || mode >= 3) ? 15 + 16 : mode == 1 ? 15 : -15;
     if (deflateInit2(&z, 9, Z_DEFLATED, wb, 8, Z_DEFAULT_STRATEGY) != Z_OK) abort();
+    gz_header gh; memset(&gh, 0, sizeof gh);
+    if (mode >= 3) {
+        if (mode == 3 || mode == 6) gh.name = (Bytef *) "file.txt";
+        if (mode == 4 || mode == 6) { gh.extra = (Bytef *) "EXTRAFIELD"; gh.extra_len = 10; }
+        if (mode == 5 || mode == 6) { gh.comment = (Bytef *) "a comment"; gh.hcrc = 1; }
+        if (deflateSetHeader(&z, &gh) != Z_OK) abort();
+    }
     size_t cap = deflateBound(&z, (uLong) n) + 64;
     uint8_t *tmp = malloc(cap);
     z.next_in = (Bytef *) data; z.avail_in = (uInt) n; z.next_out = tmp; z.avail_out = (uInt) cap;
